@@ -24,7 +24,7 @@ from xdsl.printer import Printer  # noqa: E402
 from xdsl.utils.exceptions import ParseError, VerifyException  # noqa: E402
 from xdsl.utils.mlir_lexer import MLIRTokenKind  # noqa: E402
 
-LEVEL = "bounded_symbolic"
+LEVEL = "other"
 EXPLANATION = (
     "A builtin attribute or type is built with SYMBOLIC payloads - text as bounded symbolic strings whose cells range over all "
     "of Unicode, bytes as symbolic bytes, integers as solver variables over the full range of their type, dense array / dense "
